@@ -424,7 +424,9 @@ type bucketCfg struct {
 	gap         uint64 // partitioner max gap
 	seriesLimit uint64
 	chunksLimit uint64
-	maxSeries   int // estimated max series size handed to the block (0 = default from meta)
+	maxSeries   uint64 // estimated max series size of the blocks (0 = the store's default, 64 KiB); small values
+	// make lazy posting expansion kick in and series be re-fetched
+	maxChunk uint64 // estimated max chunk size (0 = default, 16000): small values make chunks be re-fetched
 }
 
 func defaultBucketCfg() bucketCfg {
@@ -436,7 +438,7 @@ func (c bucketCfg) String() string {
 	if c.lazy {
 		l = 1
 	}
-	return fmt.Sprintf("l%d+b%d+s%d+c%d+g%d+sl%d+cl%d", l, c.batch, c.sampling, c.cache, c.gap, c.seriesLimit, c.chunksLimit)
+	return fmt.Sprintf("l%d+b%d+s%d+c%d+g%d+m%d+k%d+sl%d+cl%d", l, c.batch, c.sampling, c.cache, c.gap, c.maxSeries, c.maxChunk, c.seriesLimit, c.chunksLimit)
 }
 
 // storeKey identifies a BucketStore instance: the limits are not part of it (the limiter factories read them
@@ -474,6 +476,10 @@ func parseBucketCfg(s string) (bucketCfg, error) {
 			c.cache = int(val)
 		case "g":
 			c.gap = val
+		case "m":
+			c.maxSeries = val
+		case "k":
+			c.maxChunk = val
 		case "sl":
 			c.seriesLimit = val
 		case "cl":
@@ -495,7 +501,8 @@ type built struct {
 	// limits of the request being served (read by the limiter factories of every BucketStore of this dataset)
 	seriesLimit, chunksLimit uint64
 	stores                   map[string]*store.BucketStore // by cfg string
-	tsdbs                    []*store.TSDBStore            // one per block (kind tsdb uses the first)
+	regs                     map[string]*prometheus.Registry
+	tsdbs                    []*store.TSDBStore // one per block (kind tsdb uses the first)
 }
 
 func (b *built) close() {
@@ -587,7 +594,7 @@ func getBuilt(tok string) (rb *built, rerr error) {
 	if err != nil {
 		return nil, err
 	}
-	b := &built{dir: dir, blocks: blocks, bkt: objstore.NewInMemBucket(), stores: map[string]*store.BucketStore{}}
+	b := &built{dir: dir, blocks: blocks, bkt: objstore.NewInMemBucket(), stores: map[string]*store.BucketStore{}, regs: map[string]*prometheus.Registry{}}
 	for i, sb := range blocks {
 		bdir, err := writeBlock(filepath.Join(dir, "blocks"), blockULID(i), sb)
 		if err != nil {
@@ -635,6 +642,17 @@ func (b *built) bucketStore(cfg bucketCfg) (*store.BucketStore, error) {
 	if cfg.lazy {
 		opts = append(opts, store.WithSeriesMatchRatio(0.5))
 	}
+	if cfg.maxSeries > 0 {
+		m := cfg.maxSeries
+		opts = append(opts, store.WithBlockEstimatedMaxSeriesFunc(func(metadata.Meta) uint64 { return m }))
+	}
+	if cfg.maxChunk > 0 {
+		k := cfg.maxChunk
+		opts = append(opts, store.WithBlockEstimatedMaxChunkFunc(func(metadata.Meta) uint64 { return k }))
+	}
+	reg := prometheus.NewRegistry()
+	opts = append(opts, store.WithRegistry(reg))
+	b.regs[key] = reg
 	switch cfg.cache {
 	case 1:
 		c, err := storecache.NewInMemoryIndexCacheWithConfig(log.NewNopLogger(), nil, nil, storecache.InMemoryIndexCacheConfig{MaxSize: thanosmodel.Bytes(8 << 20), MaxItemSize: thanosmodel.Bytes(1 << 20)})
@@ -790,3 +808,26 @@ func showRanks(tab []string, vals []string) string {
 }
 
 func pickInt(r *hlib.Rand, xs ...int) int { return xs[r.Intn(len(xs))] }
+
+// storeCounter reads a counter (summed over its label values) of the BucketStore instance of a configuration.
+func (b *built) storeCounter(cfg bucketCfg, name string) float64 {
+	reg, ok := b.regs[cfg.storeKey()]
+	if !ok {
+		return 0
+	}
+	mfs, err := reg.Gather()
+	if err != nil {
+		return 0
+	}
+	var v float64
+	for _, mf := range mfs {
+		if mf.GetName() == name {
+			for _, m := range mf.GetMetric() {
+				if m.Counter != nil {
+					v += m.Counter.GetValue()
+				}
+			}
+		}
+	}
+	return v
+}
